@@ -665,6 +665,23 @@ func (s *muxerStream) createFirstSegment(
 	return nil
 }
 
+// discardFirstSegment undoes createFirstSegment.
+func (s *muxerStream) discardFirstSegment() {
+	if s.nextSegment == nil {
+		return
+	}
+
+	if seg, ok := s.nextSegment.(*muxerSegmentFMP4); ok {
+		for _, part := range seg.parts {
+			s.server.unregisterPath(part.path)
+		}
+	}
+
+	s.nextSegment.close()
+	s.nextSegment = nil
+	s.nextPart = nil
+}
+
 func (s *muxerStream) rotateParts(
 	nextDTS time.Duration,
 	createNew bool,
